@@ -299,7 +299,19 @@ pub fn mutate(root: &mut Tlv, kind: &str, n: usize, v: usize) -> bool {
             t.id[0] |= 0x20;
             t.body = Body::Cons(vec![seg(&c[..mid], true), seg(&c[mid..], false)]);
         }
-        "bits-unused" => { if t.utag() != Some(3) { return false } let mut c = t.content(); if c.is_empty() { return false } c[0] = [7u8, 8, 0xff][v % 3]; t.body = Body::Prim(c); }
+        "bits-unused" => {
+            // v = 0: a well-formed bit string that is not a whole number of octets (unused bits 1..7, those bits cleared);
+            // v = 1: unused bits declared but the bits are set (not DER); v = 2: impossible counts
+            if t.utag() != Some(3) { return false }
+            let mut c = t.content();
+            if c.len() < 2 { return false }
+            match v % 3 {
+                0 => { let k = 1 + (c.len() % 7) as u8; c[0] = k; let l = c.len() - 1; c[l] &= 0xffu8 << k; }
+                1 => { c[0] = 7; let l = c.len() - 1; c[l] |= 1; }
+                _ => { c[0] = if c.len() % 2 == 0 { 8 } else { 0xff }; }
+            }
+            t.body = Body::Prim(c);
+        }
         "bool-odd" => { if t.utag() != Some(1) { return false } t.body = Body::Prim(vec![[0x01u8, 0x00, 0x7f][v % 3]]); }
         "oid-cont" => { if t.utag() != Some(6) { return false } let mut c = t.content(); match v % 3 { 0 => { if let Some(l) = c.last_mut() { *l |= 0x80 } } 1 => c.insert(0, 0x80), _ => c = vec![0xff; 12] } t.body = Body::Prim(c); }
         "time-chars" => {
@@ -347,6 +359,26 @@ pub fn eligible(root: &Tlv, kind: &str) -> Vec<usize> {
             _ => true,
         }
     }).collect()
+}
+
+/// Representative nodes for the kinds that apply anywhere: for every distinct identifier octet the first and the last node
+/// carrying it, plus the root's children. Whatever the tree, every *kind of field* (integer, OID, time, bit string, each context
+/// tag ...) is hit at least once.
+pub fn representatives(root: &Tlv) -> Vec<usize> {
+    let total = root.count();
+    let mut r = root.clone();
+    let mut first: Vec<(Vec<u8>, usize)> = vec![];
+    let mut last: Vec<(Vec<u8>, usize)> = vec![];
+    for n in 0..total {
+        let id = r.node_mut(n).unwrap().id.clone();
+        if !first.iter().any(|(i, _)| *i == id) { first.push((id.clone(), n)); }
+        match last.iter_mut().find(|(i, _)| *i == id) { Some(e) => e.1 = n, None => last.push((id, n)) }
+    }
+    let mut out: Vec<usize> = first.iter().map(|x| x.1).chain(last.iter().map(|x| x.1)).collect();
+    out.push(0);
+    out.sort();
+    out.dedup();
+    out
 }
 
 pub const KINDS: &[&str] = &[
